@@ -7,6 +7,7 @@
 #include "K_min_positive_element.c"
 #include "K_threshold_min_to_small_positive_value.c"
 #include "K_relaxation.c"
+#include "K_ossps_clamp_tail.c"
 
 static float* mk_seq(long* n)
 {
@@ -46,4 +47,5 @@ void h_bounded_positive_denominator(void)
         __CPROVER_assert(!(old[i] > 0) || a[i] == old[i], "strictly positive elements are unchanged");
       }
 }
+void h_K_ossps_clamp_tail(void) { long n; float* p = mk_seq(&n); K_ossps_clamp_tail(p, p + n, nondet_double()); }
 void h_K_relaxation(void) { K_relaxation(nondet_int(), nondet_int()); }
